@@ -281,7 +281,7 @@ def execute(scn, seed, plans=None, snapshots=True, keep=False, stop_after=None, 
                 r = hook(i, st, world, op)
                 if r == "stop":
                     break
-            if op.get("kill") is not None:
+            if op.get("kill") is not None or op.get("kill_fs"):
                 st.inv = run_forked(world, op, work)
             else:
                 st.inv = world.run_cond(op)
